@@ -1,4 +1,5 @@
 """C15 - keep-alive, time-outs and polling fire when, and only when, they should."""
+import copy
 import itertools
 
 from .. import sessprop
@@ -37,8 +38,16 @@ def instances(tier):
 
 def variants(sc, b):
     """base + the same arrivals trickling in one byte per tick (reads that complete no message)"""
-    import copy
     out = [('base', sc)]
+    ck = sc.get('connect_kwargs') or {}
+    if ck.get('ping_timeout') is None or ck.get('close_timeout') is None:
+        # "disabled" spelled 0 instead of None (the statement names both)
+        sc0 = copy.deepcopy(sc)
+        for k in ('ping_timeout', 'close_timeout'):
+            if sc0['connect_kwargs'].get(k) is None:
+                sc0['connect_kwargs'][k] = 0
+        if sessprop.sampled(sc, b, 3):
+            out.append(('=zero-instead-of-none', sc0))
     steps = sc['conns'][0]['steps']
     if any(s['kind'] == 'data' and s.get('items') for s in steps[1:]):
         sc2 = copy.deepcopy(sc)
